@@ -3,7 +3,8 @@ CLAIMED['C02'] = dict(
 	     'run: for all strictly increasing integer lists A, B the two-pointer loop terminates within |A|+|B| steps, never '
 	     'reads out of range and the kernel returns (float)|A xor B| / (float)|A or B| (C02_union_count, by induction, no '
 	     'size bound); for |A or B| <= 2^24 that value is the exact ratio rounded once to binary32, finite and '
-	     'non-negative (C02_rounded_once, Flocq); two empty sets give +0; jaccard = 1 - distance evaluated in binary64; '
+	     'non-negative (C02_rounded_once, Flocq); two empty sets give +0; jaccard = 1 - distance evaluated in binary64, and that subtraction is exact (C02_index_exact: every binary32 in {0} u [2^-24,1] '
+	     'has a binary64-representable complement); '
 	     'the wrapper accepts exactly 16/32/64-bit signed/unsigned dtypes and the value does not depend on them. Tie '
 	     'checked on every run: model regenerated from the .pyx text, and compiled kernel vs model vs an independent exact '
 	     'integer rounding oracle, bit for bit, on all pairs of subsets of a 6/7-element universe x dtype pairs x both '
